@@ -190,7 +190,11 @@ func runC03(c *core.Ctx) {
 	}
 	nsub := 1 << uint(len(opts))
 	compiled := false
-	for mask := 0; mask < nsub; mask++ {
+	for k := 0; k < nsub && k < 32; k++ {
+		mask := k
+		if nsub > 32 && k > 0 {
+			mask = c.R.Intn(nsub) // more than five options: 32 sampled subsets (the empty one included)
+		}
 		var envs []string
 		for i, o := range opts {
 			o.EnvSet = mask&(1<<uint(i)) != 0
